@@ -12,7 +12,7 @@ CLASSES = ['uniform', 'polar', 'frame', 'antimeridian', 'wide', 'huge', 'hug', '
 RULE = ('points (lon, lat, r), r uniform in 0..29, from seven hostile classes: uniform; polar (colatitude log-uniform 1e-12..1e-1 rad + exact '
         'poles); frame (log-scale neighbourhoods of the 62 dodecahedron frame points, also displaced along seams/edges); antimeridian '
         '(+-180 +- 10^u); wide (lon in [-540,540], -0.0, denormals, ints, +-360/720); huge (|lon| up to 1e15, exactly reduced by fmod); '
-        'hug (points t=1e-9..0.3 inside corners/edges of API-discovered cells); deepsearch (local random search near cell corners that maximises the number of neighbour-search samples the call needed, observed through a probe on the inner estimate function); lattice (ordered whole-degree sweeps, ints and floats, back to back); edge / seam (anywhere along the 30 dodecahedron edges / 120 '
+        'hug (points t=1e-9..0.3 inside corners/edges of API-discovered cells); deepsearch (a cheap scan of ~160k points just inside cell corners, one lookup each; the oracle judges those whose lookup went through a run of >= 9 neighbour-search samples without a new candidate, observed through probes on the inner estimate and containment functions); lattice (ordered whole-degree sweeps, ints and floats, back to back); edge / seam (anywhere along the 30 dodecahedron edges / 120 '
         'triangle seams, displaced by 1e-12..1e-1 rad or exactly on them); antimeridian also covers the internal azimuth cuts at lon 87 / -93. Oracle: resolution of the returned id, then sag-aware '
         'adaptive gnomonic point-in-ring on cell_to_boundary (refined to 256 segments on demand); 360-degree periodicity for exactly '
         'representable shifts. distinct = distinct (lon, lat, r); non-trivial = r>=2 and the containment margin was decided (in/out), '
@@ -33,10 +33,13 @@ def p_huge(rnd):
     return (lon, lat)
 
 
-def eval_point(a5, geo, p, r, cls, ctx):
+def eval_point(a5, geo, p, r, cls, ctx, expect=None):
     case = {'lon': p[0], 'lat': p[1], 'r': r, 'cls': cls}
     try:
         c = a5.lonlat_to_cell(p, r)
+        if expect is not None and expect != c:
+            # the same point looked up inside an ordered sweep gave another cell than looked up on its own: judge that one too
+            ctx.fail('depends_on_previous_lookup', case, in_sweep=expect, alone=c)
     except Exception as e:
         ctx.case((p, r), nontrivial=False)
         ctx.fail('raises', case, exc=repr(e))
@@ -83,17 +86,30 @@ def eval_point(a5, geo, p, r, cls, ctx):
                         ctx.fail('not_periodic', case, cell=c, shifted_lon=l2, shifted_cell=c2)
 
 
+_TRACE = []
+
+
 def lattice_sweep(a5, geo, ctx):
     """ordered sweeps over whole-degree grids (ints and floats), neighbouring lookups back to back"""
     rnd = ctx.rnd
     for r in sorted({rnd.randint(0, 12), rnd.randint(13, 29)}):
         y0 = rnd.choice((-3, 0, 45, -60, 88))
         for y in range(y0 - 2, y0 + 3):
-            for x in range(-4, 5):
-                x2 = x + rnd.choice((0, 0, 180, -180, 87, -93))
-                for p in ((x2, y), (float(x2), float(y))):
-                    if -90 <= y <= 90:
-                        eval_point(a5, geo, p, r, 'lattice', ctx)
+            if not -90 <= y <= 90:
+                continue
+            off = rnd.choice((0, 0, 180, -180, 87, -93))
+            for conv in (int, float):
+                row = [(conv(x + off), conv(y)) for x in range(-4, 5)]
+                # the whole row is looked up back to back first (neighbouring lookups with nothing in between), then judged
+                try:
+                    for p in row:
+                        a5.lonlat_to_cell(p, r)
+                    got = [a5.lonlat_to_cell(p, r) for p in row]
+                except Exception as e:
+                    ctx.fail('raises', {'lon': row[0][0], 'lat': row[0][1], 'r': r, 'cls': 'lattice'}, exc=repr(e))
+                    continue
+                for p, c_row in zip(row, got):
+                    eval_point(a5, geo, p, r, 'lattice', ctx, expect=c_row)
 
 
 def deep_search_points(a5, geo, gen, probe, ctx, n_starts):
@@ -101,15 +117,25 @@ def deep_search_points(a5, geo, gen, probe, ctx, n_starts):
     search near cell corners climbs towards points that are only resolved by late samples; every point met with a deep search is
     judged by the oracle."""
     rnd = ctx.rnd
-    key = '_lonlat_to_estimate'
+    trace = _TRACE
 
     def depth(p, r):
-        before = probe.counts().get(key, 0)
+        # score of a point = samples processed + 3 x the longest run of samples that produced no new candidate before the call
+        # returned (both observed through the probes on _lonlat_to_estimate / a5cell_contains_point)
+        del trace[:]
         try:
             a5.lonlat_to_cell(p, r)
         except Exception:
-            return 99
-        return probe.counts().get(key, 0) - before
+            return (99, 99)
+        run = best_run = 0
+        for ev in trace:
+            if ev == 'E':
+                run += 1
+            else:
+                best_run = max(best_run, run)
+                run = 0
+        # a run of n estimate calls closed by a containment test = n - 1 samples without a new candidate, then a new one
+        return (best_run, len([e for e in trace if e == 'E']))
     for _ in range(n_starts):
         r = rnd.randint(2, 29)
         base = gen.p_uniform(rnd) if rnd.random() < 0.6 else gen.p_edge(rnd)
@@ -119,30 +145,37 @@ def deep_search_points(a5, geo, gen, probe, ctx, n_starts):
             cv = geo.ll_to_vec(*a5.cell_to_lonlat(c))
         except Exception:
             continue
-        e = geo.ll_to_vec(*ring[rnd.randrange(len(ring))])
-        w = geo.width(r)
-        t = 10 ** rnd.uniform(-2.5, -0.7)
-        cur = geo.unit(geo.add(geo.scale(e, 1 - t), geo.scale(cv, t)))
-        best = depth(geo.vec_to_ll(cur), r)
-        for step in range(14):
-            d = geo.unit((rnd.gauss(0, 1), rnd.gauss(0, 1), rnd.gauss(0, 1)))
-            cand = geo.unit(geo.add(cur, geo.scale(d, w * 10 ** rnd.uniform(-2.5, -1))))
-            dp = depth(geo.vec_to_ll(cand), r)
-            if dp >= best:
-                cur, best = cand, dp
-            if dp >= 11:
-                eval_point(a5, geo, geo.vec_to_ll(cand), r, 'deepsearch', ctx)
-        ctx.maxi('search_samples_needed', best, {'r': r})
-        eval_point(a5, geo, geo.vec_to_ll(cur), r, 'deepsearch', ctx)
+        # a cheap scan (one lookup each, no oracle) of 20 points just inside the corners of this cell; the oracle judges the
+        # points whose lookup went through a long run of samples without a new candidate
+        best = (0, 0)
+        for e_ll in ring:
+            e = geo.ll_to_vec(*e_ll)
+            for _k in range(4):
+                t = 10 ** rnd.uniform(-2.5, -0.7)
+                side = geo.ll_to_vec(*ring[rnd.randrange(len(ring))])
+                q = geo.unit(geo.add(geo.add(geo.scale(e, 1 - t), geo.scale(cv, t * rnd.uniform(0.3, 1.0))), geo.scale(side, t * rnd.uniform(0, 0.7))))
+                ll = geo.vec_to_ll(q)
+                dp = depth(ll, r)
+                ctx.count('corner_scan_lookups')
+                if dp > best:
+                    best = dp
+                if 10 <= dp[0] < 99:
+                    ctx.count('corner_scan_long_runs')
+                    eval_point(a5, geo, ll, r, 'deepsearch', ctx)
+                elif rnd.random() < 0.01:
+                    eval_point(a5, geo, ll, r, 'deepsearch', ctx)
+        ctx.maxi('search_longest_stale_run_plus_1', best[0], {'r': r})
+        ctx.maxi('search_samples_needed', best[1], {'r': r})
 
 
 def run_shard(spec, ctx):
     import a5
     from rv import geo, gen, probe
-    probe.count_only([('a5.core.cell', 'lonlat_to_cell'), ('a5.core.cell', '_lonlat_to_estimate'), ('a5.core.cell', 'a5cell_contains_point'),
-                      ('a5.core.cell', 'cell_to_boundary')])
+    probe.count_only([('a5.core.cell', 'lonlat_to_cell'), ('a5.core.cell', 'cell_to_boundary')])
+    probe.attach('a5.core.cell', '_lonlat_to_estimate', on_call=lambda a, k: _TRACE.append('E') if len(_TRACE) < 200 else None)
+    probe.attach('a5.core.cell', 'a5cell_contains_point', on_call=lambda a, k: _TRACE.append('C') if len(_TRACE) < 200 else None)
     lattice_sweep(a5, geo, ctx)
-    deep_search_points(a5, geo, gen, probe, ctx, spec['n'] // 40)
+    deep_search_points(a5, geo, gen, probe, ctx, spec['n'] // 8)
     for n in range(spec['n']):
         cls = CLASSES[n % len(CLASSES)]
         if cls == 'huge':
